@@ -177,6 +177,8 @@ def crosscheck(world, contracts, cms, limit=None):
                     elif sym[0] == 'return' and not same_value(sym[1], nat[1]):
                         bad.append(f"{c.qualname}{s}: native returns {nat[1]!r:.80}, interpreter {sym[1]!r:.80}")
                 except Exception as e:      # noqa
+                    if type(e).__name__ in ('Unsupported', 'CutPath'):
+                        continue        # the sample leaves the modelled subset on this tree: nothing to compare
                     bad.append(f"{c.qualname}{s}: cross-check crashed: {e!r}")
     return n, bad
 
